@@ -176,3 +176,56 @@ def hst_class_ok(ht, hst):
 def is_shb(ptt):
     return ptt.header_type.value == 5 and type(ptt.header_subtype).__name__ == "TopoBroadcastHST" \
         and ptt.header_subtype.value == 0
+
+
+# --------------------------------------------------------------------------- emitted frames (ghost ether)
+def n_sent():
+    return len(ghost("sent"))
+
+
+def sent0():
+    return ghost("sent")[0]
+
+
+def common_int(nh, ht, hst, tc, mobile, pl, mhl):
+    """the 8 octets of a Common Header from its field values (reserved fields zero, mobility flag = MSB of flags)"""
+    return (nh * 2 ** 60 + ht * 2 ** 52 + hst * 2 ** 48 + tc_int(tc) * 2 ** 40 + mobile * 128 * 2 ** 32
+            + pl * 2 ** 16 + mhl * 2 ** 8)
+
+
+def lt_octet_ms(octet):
+    return (octet // 4) * LT_BASE_MS[octet % 4]
+
+
+def frame_basic_ok(frame, nh, rhl):
+    """octets 0..3: version 1, next header nh, reserved 0, remaining hop limit rhl"""
+    return be(frame, 0, 1) == 16 + nh and be(frame, 1, 1) == 0 and be(frame, 3, 1) == rhl
+
+
+def frame_lifetime_ms(frame):
+    return lt_octet_ms(be(frame, 2, 1))
+
+
+def requested_ms(request, mib):
+    return (request.max_packet_lifetime * 1000 if request.max_packet_lifetime is not None
+            else mib.itsGnDefaultPacketLifetime * 1000)
+
+
+def request_ok(request):
+    return (request.length == len(request.data) and 0 <= request.length <= 65535 and tc_valid(request.traffic_class)
+            and 0 <= request.max_hop_limit <= 255
+            and (request.max_packet_lifetime is None or request.max_packet_lifetime >= 0))
+
+
+def area_ok(area):
+    return (-2 ** 31 <= area.latitude < 2 ** 31 and -2 ** 31 <= area.longitude < 2 ** 31 and 0 <= area.a < 2 ** 16
+            and 0 <= area.b < 2 ** 16 and 0 <= area.angle < 2 ** 16)
+
+
+def mib_ok(mib):
+    return mib.itsGnDefaultPacketLifetime >= 0 and 0 <= mib.itsGnDefaultHopLimit <= 255 and mib.itsGnProtocolVersion == 1
+
+
+def area_int(area):
+    return (u(area.latitude, 32) * 2 ** 96 + u(area.longitude, 32) * 2 ** 64 + area.a * 2 ** 48 + area.b * 2 ** 32
+            + area.angle * 2 ** 16)
